@@ -73,6 +73,7 @@ type FuncSpec struct {
 	Skip      bool
 	Reveal    []string
 	PerReturn bool
+	Cases     bool // postmode cases: postconditions also split by the branches merged into each return
 	Unroll    map[int]int
 }
 
@@ -301,7 +302,13 @@ func (cs *Contracts) loadContractFile(path, pkgPath string) error {
 		case "skip":
 			cur.Skip = true
 		case "postmode":
-			cur.PerReturn = rest == "per-return"
+			if rest == "cases" {
+				// per return site and, within one, per branch state merged into it (the goal is then
+				// proved under each branch's path condition separately: no reasoning through ite-merged heaps)
+				cur.Cases = true
+			} else {
+				cur.PerReturn = rest == "per-return"
+			}
 		case "nopanic":
 			cur.NoPanic = rest
 		case "loop":
